@@ -5,4 +5,6 @@ import ModVerif.Drv.GenTlog
 import ModVerif.Drv.GenTile
 open ModVerif.Drv
 
-def main : IO Unit := runMain [("tlog", Tlog.handle), ("tile", Tile.handle), ("gtlog", GenTlog.handle), ("gtile", GenTile.handle)]
+def gtlog : Handler := fun op args => (GenTlog.handle op args) <|> (GenTlogNote.handle op args)
+
+def main : IO Unit := runMain [("tlog", Tlog.handle), ("tile", Tile.handle), ("gtlog", gtlog), ("gtile", GenTile.handle)]
